@@ -22,6 +22,9 @@ class Random:
             raise ValueError("random_float: start must be <= end")
 
         if precision is Nil:
+            if math.isinf(end - start):
+                # the span itself overflows a float: draw from the halved interval, scale back
+                return random.uniform(start / 2, end / 2) * 2
             return random.uniform(start, end)
 
         scale_factor = 10 ** precision
